@@ -1,6 +1,8 @@
 """C13: a decay descriptor string determines the decay tree it was made from."""
 from __future__ import annotations
 
+import contextlib
+
 import itertools
 from collections import Counter
 
@@ -149,6 +151,41 @@ def run(ctx):
             if direct != sp:
                 res.violation("patterns written directly into DescriptorFormat.config are not used as named (first pattern at the top level, second at nested levels)",
                               dict(case, patterns=[p1, p2]), impl=direct, model=sp, clause="patterns")
+        if calls[0] % 5 == 4:
+            # a request for new patterns that is refused (one of the two patterns lacks a wildcard or has an unknown one) changes
+            # nothing: afterwards the tree is rendered with the patterns that were in force before the request - the defaults
+            # outside any block, the block's own patterns inside one
+            badp = rng.choice(["[{mother} --> {daughter}]", "({mother} -> {daughters} {extra})", "no wildcards at all", "{mother}", "({daughters})", ""])
+            first_bad = calls[0] % 10 == 9
+            req = (badp, p2) if first_bad else (p1, badp)
+            for how in ("with", "set_config"):
+                for inside_block in (False, True):
+                    ctx_mgr = DescriptorFormat(p1, p2) if inside_block else contextlib.nullcontext()
+                    with ctx_mgr:
+                        try:
+                            if how == "with":
+                                with DescriptorFormat(*req):
+                                    pass
+                            else:
+                                DescriptorFormat.set_config(*req)
+                            outcome = "accepted"
+                        except ValueError:
+                            outcome = "ValueError"
+                        rendered = dc.to_string()
+                    after_all = dc.to_string()
+                    if outcome == "accepted" and how == "set_config":
+                        DescriptorFormat.set_config(PATTERNS[0][0], PATTERNS[0][1])
+                    res.count("refused_pattern_requests")
+                    hcase = dict(case, history=[f"{how}{req!r} -> {outcome}", "to_string()"], inside_block=[p1, p2] if inside_block else None)
+                    if outcome != "ValueError":
+                        # whether such a request is refused is C14's clause, not this property's: nothing to compare here
+                        res.count("bad_pattern_accepted")
+                        DescriptorFormat.config = {"decay_pattern": PATTERNS[0][0], "sub_decay_pattern": PATTERNS[0][1]}
+                    elif rendered != (sp if inside_block else s) or after_all != s:
+                        res.violation("after a refused request for new patterns the tree is not rendered with the patterns in force before it", hcase,
+                                      impl=[rendered, after_all], model=[sp if inside_block else s, s], clause="patterns")
+                        # put the defaults back so that the rest of the run is not measured against a damaged configuration
+                        DescriptorFormat.config = {"decay_pattern": PATTERNS[0][0], "sub_decay_pattern": PATTERNS[0][1]}
         d = dc.to_dict()
 
         def on(ans, s=s, case=case):
